@@ -306,11 +306,13 @@ func (m *Muxer) retransmitTables(force bool) (int, error) {
 func (m *Muxer) WriteTables() (int, error) {
 	bytesWritten := 0
 
-	if err := m.generatePAT(); err != nil {
+	// The PMT is generated first since it's the one that can fail (e.g. invalid PCR PID): that way a failed call
+	// doesn't consume a PAT continuity counter value for a PAT that is never written
+	if err := m.generatePMT(); err != nil {
 		return bytesWritten, err
 	}
 
-	if err := m.generatePMT(); err != nil {
+	if err := m.generatePAT(); err != nil {
 		return bytesWritten, err
 	}
 
